@@ -56,7 +56,8 @@ ASSUMPTIONS = [
 ]
 OP_TAGS = ['Schedule', 'Unschedule', 'PresenceUp', 'PresenceDown', 'PresenceUpRaw', 'PresenceBounce', 'ServerRecord',
            'ServerDeleteApi', 'Deliver', 'Allocations', 'IdentityGroup', 'IdentityGroupDeleted', 'ServerState',
-           'AppsBlacklist', 'Priority', 'Renew', 'RunningAll', 'Tick', 'PendingStartCheck', 'Restart', 'MasterCycle']
+           'AppsBlacklist', 'Priority', 'Renew', 'RunningAll', 'Tick', 'PendingStartCheck', 'Restart', 'MasterCycle',
+           'UnscheduleRace', 'ServerRecreate', 'ServerReboot', 'GroupBounce']
 
 
 def _pd(d):
@@ -349,7 +350,7 @@ def _install(tr):
                 tr.resync = True
                 raise
             if tr.cur is not None and w.m is tr.cur:
-                tr.emit('HNoView', '(HNoView %d)' % OP_TAGS.index(op[0]), tr.cur)
+                tr.emit('HNoView', '(HNoView %d)' % (OP_TAGS.index(op[0]) if op[0] in OP_TAGS else len(OP_TAGS)), tr.cur)
             return r
         return f
     patch(em.World, 'apply', mk_apply)
